@@ -247,6 +247,46 @@ def check_case(res, keys, eq, wc, rng, tag):
     return r
 
 
+def check_long_chain(res, rng, n):
+    """one class that is a long CHAIN (item i linked to item i+1, kinds drawn at random, optionally closed by one more link): what a
+    domain repeated along a long strand, or a long run of `equal` statements, gives.  Judged against the prefix parity directly."""
+    kinds = [rng.random() < 0.5 for _ in range(n - 1)]          # True = complementary
+    keys = list(range(n))
+    order = rng.choice(["ascending", "descending", "shuffled"])
+    if order == "descending":
+        keys.reverse()
+    elif order == "shuffled":
+        rng.shuffle(keys)
+    eq = {k: [] for k in keys}; wc = {k: [] for k in keys}
+    for i, c in enumerate(kinds):
+        d = wc if c else eq
+        d[i].append(i + 1); d[i + 1].append(i)
+    par = [0]
+    for c in kinds:
+        par.append(par[-1] ^ int(c))
+    evens = {i for i in range(n) if par[i] == 0}; odds = set(range(n)) - evens
+    res.evaluations += 1
+    res.count("long-chain:n=%d:%s" % (n, order))
+    inp = {"items": n, "chain": "item i linked to i+1; complementary where the bit is 1", "bits": "".join("1" if c else "0" for c in kinds), "key_order": order}
+    cmd = "from peppercompiler.design.constraints import propagate_constraints  # eq/wc dicts of the chain described in this file"
+    from peppercompiler.design.constraints import propagate_constraints
+    try:
+        ea, wa = propagate_constraints({k: list(eq[k]) for k in keys}, {k: list(wc[k]) for k in keys})
+    except BaseException as e:
+        if isinstance(e, KeyboardInterrupt):
+            raise
+        res.violations.append({"what": "propagate_constraints raised %s on a chain of %d items" % (type(e).__name__, n), "input": inp,
+                               "sig": "C07:raises", "cmd": cmd})
+        return
+    for k in (0, n // 2, n - 1, rng.randrange(n)):
+        want = (evens, odds) if par[k] == 0 else (odds, evens)
+        if (set(ea[k]), set(wa[k])) != want:
+            res.violations.append({"what": "closure of item %d of a chain of %d items is not the parity closure" % (k, n), "input": inp,
+                                   "observed": "equals: %d items, complements: %d items" % (len(set(ea[k])), len(set(wa[k]))),
+                                   "expected": "equals: %d items, complements: %d items" % (len(want[0]), len(want[1])), "sig": "C07:closure", "cmd": cmd})
+            return
+
+
 def run(st, tier, seed):
     res = Result("C07")
     res.rule = ("random symmetric link graphs (items are ints and (num,idx) tuples; eq/wc mixtures, self-links, duplicate links, "
@@ -276,6 +316,8 @@ def run(st, tier, seed):
     res.extra["exhaustive_small_graphs_up_to_items"] = 2 if tier == "quick" else 3
     for _ in range(120 if tier == "quick" else 3000):
         check_bulk(res, rng)
+    for n_ in ([1500, 2500] if tier == "quick" else [1500, 2500, 4000, 6000, 1200, 3000]):
+        check_long_chain(res, rng, n_)
     reqs, impls = [], []
     for keys, eq, wc in cases:
         r = check_case(res, keys, eq, wc, rng, "rand")
